@@ -43,6 +43,7 @@ def main():
                 results.setdefault(n, {})[pid] = r
                 print(n, pid, "caught" if r["caught"] else "MISSED", "concrete" if r["concrete_replay"] else "", r["wall_s"], "s", flush=True)
         finally:
+            sh("git -C /repo apply -R %s/patch.diff" % d)      # also restores untracked generated .c files
             sh("git -C /repo checkout -- .")
         json.dump(results, open(respath, "w"), indent=1, sort_keys=True)
     rc, out = sh("git -C /repo status --porcelain --untracked-files=no")
